@@ -35,6 +35,9 @@ def alphabet(models=('Alpha', 'Beta'), fields=('a', 'b', 'c'), small=False):
             if not small:
                 out.append({'t': 'ChangeField', 'model': m, 'field': x, 'ftype': None, 'initial': None,
                             'attrs': [['db_index', 'false']]})
+                # a change of the field's type (the column type really changes), alone and together with NOT NULL
+                out.append({'t': 'ChangeField', 'model': m, 'field': x, 'ftype': 'CharField', 'initial': None,
+                            'attrs': [['max_length', '20'], ['null', 'true']]})
             for y in fields:
                 if small and x == y:
                     continue
